@@ -320,6 +320,12 @@ class CLock:
 
     def acquire(self, blocking=True, timeout=-1):
         s = cur()
+        if s is None:
+            # outside a scheduled execution: a trivial single-threaded lock
+            if self.owner is not None:
+                return False
+            self.owner = 'unscheduled'
+            return True
         if self.owner is not None:
             if not blocking:
                 s.point('lock-try')
@@ -338,7 +344,9 @@ class CLock:
 
     def release(self):
         self.owner = None
-        SCHED.point('unlock')
+        s = cur()
+        if s is not None:
+            s.point('unlock')
 
     def locked(self):
         return self.owner is not None
